@@ -381,7 +381,7 @@ Definition check_case (c : case) : list (nat * N) :=
   (if ts_sorted_from None l then [] else [(1%nat, ktag 2%N)]) ++
   (if rep_ok_prefix vs l && rep_fields_from vs [] l &&
       (match e with
-       | EDone => if cl && negb (cfg_valid cl vs) then true else rep_ok_done cl vs l
+       | EDone => if cl && negb (cfg_valid cl vs && negb (class_width vs) && negb ovf) then true else rep_ok_done cl vs l
        | _ => true
        end)
    then [] else [(2%nat, ktag 3%N)]) ++
@@ -389,15 +389,20 @@ Definition check_case (c : case) : list (nat * N) :=
   (if steps_from vs [] l then [] else [(4%nat, ktag 5%N)]) ++
   (if c_nosync c || negb (sync_checkable cl vs) then []
    else if sync_from cl vs [] l &&
+           (Nat.leb (List.length (filter (is_injected_sync cl (List.length vs)) l)) 1) &&
            (match e with
-            | EDone => (cl && negb (cfg_valid cl vs)) || has_injected cl vs l
+            | EDone => (cl && negb (cfg_valid cl vs && negb (class_width vs) && negb ovf)) || has_injected cl vs l
             | _ => true
             end)
         then [] else [(5%nat, ktag 6%N)]) ++
   (if list_eqb obs_eqb (c_obs c) (c_obs2 c) then [] else [(6%nat, 7%N)]) ++
   (match e with
    | EPanic => [(7%nat, if class_width vs then 11%N else 8%N)]
-   | EErr => if cfg_valid cl vs then [(8%nat, ktag 9%N)] else []
+   | EErr =>
+       (* an error is the documented answer to an invalid value, to a width
+          beyond int64 and to a timestamp that would leave int64 (the last two
+          only occur once the patches for KF-C20-1/2 are in) *)
+       if cfg_valid cl vs && negb (class_width vs) && negb ovf then [(8%nat, 9%N)] else []
    | _ => []
    end).
 
